@@ -8,8 +8,11 @@ Ltac Zify.zify_post_hook ::= Z.div_mod_to_equations.
 Close Scope N_scope.
 Open Scope nat_scope.
 
+Section ExtraS.
+Variable extra : nat.
+
 Lemma simple_line_spec bs line : forall n j cum,
-  simple_line bs (nwords (length bs)) line (seq j n) cum = cum + seg bs (64 * (line * 4 + j)) (64 * n).
+  simple_line bs ((nwords (length bs) + extra)) line (seq j n) cum = cum + seg bs (64 * (line * 4 + j)) (64 * n).
 Proof.
   induction n as [|n IH]; intros j cum; cbn [seq simple_line].
   - rewrite Nat.mul_0_r, seg_0. lia.
@@ -19,7 +22,7 @@ Qed.
 
 Lemma simple_lines_spec bs : forall n i cum,
   cum = rank1 bs (256 * i) ->
-  let '(lines, total) := simple_lines bs (nwords (length bs)) n i cum in
+  let '(lines, total) := simple_lines bs ((nwords (length bs) + extra)) n i cum in
   length lines = n /\ total = rank1 bs (256 * (i + n)) /\
   forall k, k < n -> nth k lines 0 = rank1 bs (256 * (i + k)).
 Proof.
@@ -27,7 +30,7 @@ Proof.
   - split; [reflexivity|]. split; [rewrite Hcum; f_equal; lia|]. intros k Hk. lia.
   - rewrite simple_line_spec.
     specialize (IH (S i) (cum + seg bs (64 * (i * 4 + 0)) (64 * 4))).
-    destruct (simple_lines bs (nwords (length bs)) n (S i) (cum + seg bs (64 * (i * 4 + 0)) (64 * 4))) as [rest total].
+    destruct (simple_lines bs ((nwords (length bs) + extra)) n (S i) (cum + seg bs (64 * (i * 4 + 0)) (64 * 4))) as [rest total].
     destruct IH as (Hlen & Htot & Hks).
     { rewrite Hcum. replace (256 * S i) with (256 * i + 64 * 4) by lia. rewrite rank1_seg. f_equal. f_equal. lia. }
     split; [cbn [length]; lia|]. split; [rewrite Htot; f_equal; lia|].
@@ -37,16 +40,16 @@ Proof.
 Qed.
 
 Lemma simple_build_spec bs :
-  let s := simple_build bs in
+  let s := simple_build bs extra in
   let nl := nlines256 (length bs) in
-  sm_bits s = bs /\ sm_size s = length bs /\ sm_nw s = nwords (length bs) /\
+  sm_bits s = bs /\ sm_size s = length bs /\ sm_nw s = (nwords (length bs) + extra) /\
   sm_mr1 s = count1 bs /\ sm_mr0 s = length bs - count1 bs /\
   length (sm_cache s) = S nl /\
   (forall i, i <= nl -> nth i (sm_cache s) 0 = rank1 bs (256 * i)).
 Proof.
   cbv zeta. unfold simple_build.
   pose proof (simple_lines_spec bs (nlines256 (length bs)) 0 0 eq_refl) as Hb.
-  destruct (simple_lines bs (nwords (length bs)) (nlines256 (length bs)) 0 0) as [lines cum].
+  destruct (simple_lines bs ((nwords (length bs) + extra)) (nlines256 (length bs)) 0 0) as [lines cum].
   destruct Hb as (Hlen & Htot & Hk). cbn [Nat.add] in *.
   pose proof (nlines256_bounds (length bs)) as [Hn1 Hn2].
   assert (Hcum : cum = count1 bs) by (rewrite Htot; apply rank1_all; lia).
@@ -59,7 +62,7 @@ Proof.
   - rewrite app_nth1 by lia. apply Hk. lia.
 Qed.
 
-Lemma simple_whole_spec bs s : sm_bits s = bs -> sm_nw s = nwords (length bs) ->
+Lemma simple_whole_spec bs s : sm_bits s = bs -> sm_nw s = (nwords (length bs) + extra) ->
   forall n a rank, simple_whole s (seq a n) rank = rank + seg bs (64 * a) (64 * n).
 Proof.
   intros Hb Hn. induction n as [|n IH]; intros a rank; cbn [seq simple_whole].
@@ -69,7 +72,7 @@ Proof.
 Qed.
 
 Theorem simple_rank1_correct_proof bs p :
-  p <= length bs -> simple_rank1 (simple_build bs) p = Some (rank1 bs p).
+  p <= length bs -> simple_rank1 (simple_build bs extra) p = Some (rank1 bs p).
 Proof.
   intros Hp. destruct (simple_build_spec bs) as (Hbits & Hsize & Hnw & _ & _ & Hclen & Hbase).
   pose proof (nlines256_bounds (length bs)) as [Hn1 Hn2].
@@ -83,45 +86,45 @@ Proof.
   rewrite <- rank1_seg.
   replace (256 * b + 64 * (tw - b * 4)) with (64 * tw) by lia.
   destruct (Nat.ltb_spec 0 (p mod 64)) as [Hpos|Hzero]; cbn [andb].
-  - assert (Hex : tw < nwords (length bs)) by (unfold nwords; subst tw; lia).
-    replace (tw <? nwords (length bs)) with true by (symmetry; apply Nat.ltb_lt; exact Hex).
+  - assert (Hex : tw < (nwords (length bs) + extra)) by (unfold nwords; subst tw; lia).
+    replace (tw <? (nwords (length bs) + extra)) with true by (symmetry; apply Nat.ltb_lt; exact Hex).
     unfold word. rewrite firstn_firstn. replace (Nat.min (p mod 64) 64) with (p mod 64) by lia.
     fold (seg bs (64 * tw) (p mod 64)). rewrite <- rank1_seg. f_equal. subst tw. lia.
   - f_equal. subst tw. lia.
 Qed.
 
 Theorem simple_rank0_correct_proof bs p :
-  p <= length bs -> simple_rank0 (simple_build bs) p = Some (rank0 bs p).
+  p <= length bs -> simple_rank0 (simple_build bs extra) p = Some (rank0 bs p).
 Proof.
   intros Hp. unfold simple_rank0. rewrite simple_rank1_correct_proof by exact Hp.
   pose proof (rank0_rank1 bs p Hp). f_equal. lia.
 Qed.
 
-Theorem simple_rank1_refuses_proof bs p : length bs < p -> simple_rank1 (simple_build bs) p = None.
+Theorem simple_rank1_refuses_proof bs p : length bs < p -> simple_rank1 (simple_build bs extra) p = None.
 Proof.
   intros Hp. destruct (simple_build_spec bs) as (_ & Hsize & _).
   unfold simple_rank1. rewrite Hsize. replace (length bs <? p) with true by (symmetry; apply Nat.ltb_lt; lia). reflexivity.
 Qed.
 
 Theorem simple_get_correct_proof bs i :
-  simple_get (simple_build bs) i = if length bs <=? i then None else Some (nth i bs false).
+  simple_get (simple_build bs extra) i = if length bs <=? i then None else Some (nth i bs false).
 Proof.
   destruct (simple_build_spec bs) as (Hbits & Hsize & Hnw & _).
   unfold simple_get. rewrite Hsize, Hnw, Hbits. destruct (Nat.leb_spec (length bs) i) as [|Hlt]; [reflexivity|].
-  replace (i / 64 <? nwords (length bs)) with true by (symmetry; apply Nat.ltb_lt; unfold nwords; lia).
+  replace (i / 64 <? (nwords (length bs) + extra)) with true by (symmetry; apply Nat.ltb_lt; unfold nwords; lia).
   f_equal. unfold word. rewrite nth_firstn by (apply Nat.mod_upper_bound; lia).
   rewrite nth_skipn. f_equal. pose proof (Nat.div_mod i 64). lia.
 Qed.
 
 Theorem simple_count_ones_proof bs :
-  sm_mr1 (simple_build bs) = count1 bs /\ sm_size (simple_build bs) = length bs.
+  sm_mr1 (simple_build bs extra) = count1 bs /\ sm_size (simple_build bs extra) = length bs.
 Proof. destruct (simple_build_spec bs) as (_ & Hsize & _ & Hmr1 & _). split; assumption. Qed.
 
 (* ---- the ascending scans ---- *)
 Lemma seg_word_past bs wi n : nwords (length bs) <= wi -> seg bs (64 * wi) n = 0.
 Proof. intros H. apply seg_past. unfold nwords in H. lia. Qed.
 
-Lemma simple_scan1_spec bs s block : sm_bits s = bs -> sm_nw s = nwords (length bs) ->
+Lemma simple_scan1_spec bs s block : sm_bits s = bs -> sm_nw s = (nwords (length bs) + extra) ->
   forall n j rem,
   rem < seg bs (64 * (block * 4 + j)) (64 * n) ->
   simple_scan1 s block (seq j n) rem = select1 bs (rank1 bs (64 * (block * 4 + j)) + rem).
@@ -129,8 +132,8 @@ Proof.
   intros Hb Hn. induction n as [|n IH]; intros j rem Hrem.
   - rewrite Nat.mul_0_r, seg_0 in Hrem. lia.
   - cbn [seq simple_scan1]. rewrite Hb, Hn.
-    destruct (Nat.leb_spec (nwords (length bs)) (block * 4 + j)) as [Hout|Hin].
-    { rewrite seg_word_past in Hrem by exact Hout. lia. }
+    destruct (Nat.leb_spec ((nwords (length bs) + extra)) (block * 4 + j)) as [Hout|Hin].
+    { rewrite seg_word_past in Hrem by lia. lia. }
     rewrite word_count.
     destruct (Nat.ltb_spec rem (seg bs (64 * (block * 4 + j)) 64)) as [Hhit|Hmiss].
     + destruct (select1_window bs (64 * (block * 4 + j)) (rank1 bs (64 * (block * 4 + j)) + rem)) as (Hsel & _); [lia|lia|].
@@ -142,11 +145,11 @@ Proof.
       * replace (64 * (block * 4 + S j)) with (64 * (block * 4 + j) + 64) by lia. lia.
 Qed.
 
-Theorem simple_select1_correct_proof bs k : simple_select1 (simple_build bs) k = select1 bs k.
+Theorem simple_select1_correct_proof bs k : simple_select1 (simple_build bs extra) k = select1 bs k.
 Proof.
   destruct (simple_build_spec bs) as (Hbits & Hsize & Hnw & Hmr1 & Hmr0 & Hclen & Hbase).
   pose proof (nlines256_bounds (length bs)) as [Hn1 Hn2].
-  set (s := simple_build bs) in *. set (nl := nlines256 (length bs)) in *.
+  set (s := simple_build bs extra) in *. set (nl := nlines256 (length bs)) in *.
   unfold simple_select1. rewrite Hmr1, Hclen.
   destruct (Nat.leb_spec (count1 bs) k) as [Hge|Hlt].
   { destruct (select1 bs k) as [p|] eqn:E; [|reflexivity].
@@ -183,7 +186,7 @@ Proof.
 Qed.
 
 (* select0 works on the negated list; no padding is involved because the scan clamps the last word *)
-Lemma simple_scan0_spec bs s block : sm_bits s = bs -> sm_nw s = nwords (length bs) -> sm_size s = length bs ->
+Lemma simple_scan0_spec bs s block : sm_bits s = bs -> sm_nw s = (nwords (length bs) + extra) -> sm_size s = length bs ->
   forall n j rem,
   rem < seg (map negb bs) (64 * (block * 4 + j)) (64 * n) ->
   simple_scan0 s block (seq j n) rem = select1 (map negb bs) (rank1 (map negb bs) (64 * (block * 4 + j)) + rem).
@@ -193,7 +196,7 @@ Proof.
   induction n as [|n IH]; intros j rem Hrem.
   - rewrite Nat.mul_0_r, seg_0 in Hrem. lia.
   - cbn [seq simple_scan0]. rewrite Hb, Hn, Hs.
-    destruct (Nat.leb_spec (nwords (length bs)) (block * 4 + j)) as [Hout|Hin].
+    destruct (Nat.leb_spec ((nwords (length bs) + extra)) (block * 4 + j)) as [Hout|Hin].
     { rewrite seg_past in Hrem by (rewrite HNlen; unfold nwords in Hout; lia). lia. }
     set (wi := block * 4 + j) in *.
     set (w := word bs wi).
@@ -229,11 +232,11 @@ Proof.
       * replace (64 * (block * 4 + S j)) with (64 * wi + 64) by (subst wi; lia). lia.
 Qed.
 
-Theorem simple_select0_correct_proof bs k : simple_select0 (simple_build bs) k = select0 bs k.
+Theorem simple_select0_correct_proof bs k : simple_select0 (simple_build bs extra) k = select0 bs k.
 Proof.
   destruct (simple_build_spec bs) as (Hbits & Hsize & Hnw & Hmr1 & Hmr0 & Hclen & Hbase).
   pose proof (nlines256_bounds (length bs)) as [Hn1 Hn2].
-  set (s := simple_build bs) in *. set (nl := nlines256 (length bs)) in *.
+  set (s := simple_build bs extra) in *. set (nl := nlines256 (length bs)) in *.
   unfold simple_select0, select0. rewrite Hmr0, Hclen.
   set (Nb := map negb bs).
   assert (Hc0 : count1 Nb = length bs - count1 bs) by apply count1_negb.
@@ -273,3 +276,4 @@ Proof.
   - fold Nb. f_equal. replace (64 * (block * 4 + 0)) with (256 * block) by lia. lia.
   - fold Nb. replace (64 * (block * 4 + 0)) with (256 * block) by lia. change (64 * 4) with 256. lia.
 Qed.
+End ExtraS.
